@@ -2,7 +2,7 @@
 from corr import mesh_family
 from oracles import c16 as oracle
 
-GEN = []
+GEN = ["Tol"]
 LEAN_TARGETS = ["MagpyVerif.Props.C16"]
 PROPS = ["MagpyVerif.Props.C16"]
 
@@ -26,6 +26,9 @@ def run(ctx, model_ok):
         ctx.cov["rule"] += ("; inwards: get_inwards_mask + fix_trimesh_orientation vs the model, half of the cases closed bodies (1-3 cubes/tetrahedra/octahedra, apart or "
                             "not, random flips) with the real is_facet_inwards whose verdicts are handed to the model, half arbitrary triples with is_facet_inwards replaced "
                             "by a random table; compared: mask and returned faces, exactly")
+    if ctx.driver_ok:
+        from corr import trimesh_family as _tf
+        ctx.cov["correspondence_trimesh_inside"] = _tf.run_inside_stream(ctx, ctx.scale(150, 5000))
     budget = 4 if len(ctx.broken) else 1
     fails, ost = oracle.sweep(ctx, ctx.scale(16, 600) * budget)
     ctx.failing += fails
@@ -33,7 +36,9 @@ def run(ctx, model_ok):
     ctx.cov.setdefault("evaluations", ost["c16_meshes"])
     ctx.cov.setdefault("distinct_nontrivial", ost["c16_meshes"])
     ctx.cov.setdefault("samples", [ost])
-    ctx.cov["not_shown"] = ["the seed's ray test (is_facet_inwards), inside test and self-intersection test (float geometry with absolute tolerances), hence 'consistent => all outwards' "
+    ctx.cov["not_shown"] = ["that the ray test (mask_inside_trimesh / is_facet_inwards; ported, tied bit-for-bit by the trimesh-inside stream, shown independent of unit, "
+                            "position and face order) equals the geometric inside predicate of a closed surface — it does not on the planes through the ray start and an edge "
+                            "(Props/C02 trimesh_ray_test_misses_interior_point) —, and the self-intersection test; hence 'consistent => all outwards' "
                             "(needs a correct seed verdict and the orientability of closed non-self-intersecting surfaces): permutation/flip/derived-mesh oracle only"]
 
 
